@@ -1900,6 +1900,19 @@ def clone(
     return copy.deepcopy(x, memo) if deep else copy.copy(x)
 
 
+def clone_member(value: Any, deep: bool, memo: Optional[Any] = None) -> Any:
+  """Clones a member of a symbolic container for `sym_clone`.
+
+  Symbolic values are always copied (also when nested in tuples); other values
+  are copied only for deep clones.
+  """
+  if deep or isinstance(value, Symbolic):
+    return clone(value, deep, memo)
+  if isinstance(value, tuple):
+    return tuple([clone_member(v, deep, memo) for v in value])
+  return value
+
+
 def is_deterministic(x: Any) -> bool:
   """Returns if the input value is deterministic.
 
